@@ -1,5 +1,7 @@
 (* Property C20 - Multi-image subscription polling: bounded, fair, and sessions never mix.
-   Statements only; proofs are in Proofs/SubscriptionProofs.v, AssemblerProofs.v, C20OracleProofs.v. *)
+   Statements only; proofs are in Proofs/SubscriptionProofs.v, AssemblerProofs.v, C20OracleProofs.v, C20HistoryProofs.v,
+   BufferBuilderProofs.v, AssemblerBBProofs.v, C20BBProofs.v (the reassembly buffer as the code manages it) and
+   SubThreadsProofs.v (a poll against a concurrent add / remove of an image). *)
 Require Import V.Base.MachineInt.
 Require Import V.Generated.GenConsts.
 Require Import V.Model.LogBase.
@@ -15,6 +17,14 @@ Require Import V.Proofs.SubscriptionProofs.
 Require Import V.Proofs.AssemblerProofs.
 Require Import V.Proofs.C20OracleProofs.
 Require Import V.Proofs.C20HistoryProofs.
+Require Import V.Generated.GenBufferBuilder.
+Require Import V.Model.BufferBuilder.
+Require Import V.Model.AssemblerBB.
+Require Import V.Model.SubThreads.
+Require Import V.Proofs.BufferBuilderProofs.
+Require Import V.Proofs.AssemblerBBProofs.
+Require Import V.Proofs.C20BBProofs.
+Require Import V.Proofs.SubThreadsProofs.
 Open Scope Z_scope.
 
 (* poll_inner with any poll flavour that returns between 0 and the limit it is given: the total is at most
@@ -63,6 +73,26 @@ Theorem C20_first_full_limit : forall (I X : Type) (pk : I -> Z -> Z * I * list 
                   xs = snd (pk im0 limit) ++ ys.
 Proof. exact @poll_inner_first. Qed.
 Print Assumptions C20_first_full_limit.
+
+(* ... and when it is given a positive limit it leaves behind at least the first committed frame at its position, be it
+   data or the padding frame that closes a term (slot_ok / os_wf: the image of a well-formed harness slot at a position
+   where the property speaks; os_frames: the committed frames visible at its position).  Together with C20_fair: an image
+   with frames at its position moves forward at least once in any n+1 consecutive calls with a positive limit, so an image
+   standing on an end-of-term padding frame reaches the data of the next term within 2(n+1) calls.
+   (controlled_poll: unless the first frame is a data frame that the handler answers Abort.) *)
+Theorem C20_starting_image_advances : forall sl lim,
+  slot_ok sl -> im_closed (slot_image sl) = false -> os_wf (oslot_of sl) = true ->
+  0 < lim -> os_frames (oslot_of sl) <> [] ->
+  let '(n, sl', ds) := pk_poll sl lim in im_pos (slot_image sl) < im_pos (slot_image sl').
+Proof. exact poll_advances. Qed.
+Print Assumptions C20_starting_image_advances.
+
+Theorem C20_starting_image_advances_controlled : forall salt tab sl lim,
+  slot_ok sl -> im_closed (slot_image sl) = false -> os_wf (oslot_of sl) = true ->
+  0 < lim -> must_advance (script_for salt tab sl) (os_frames (oslot_of sl)) = true ->
+  let '(n, sl', ds) := pk_cpoll salt tab sl lim in im_pos (slot_image sl) < im_pos (slot_image sl').
+Proof. exact cpoll_advances. Qed.
+Print Assumptions C20_starting_image_advances_controlled.
 
 (* images added or removed between calls: whatever the index was, the next starting index is inside the list *)
 Theorem C20_index_in_range : forall len rr, 0 <= len -> 0 <= rr ->
@@ -119,6 +149,228 @@ Theorem C20_oracle_history : forall m slots initial ops, case_ok slots ops ->
 Proof. exact sub_case_judged. Qed.
 Print Assumptions C20_oracle_history.
 
+(* ================================================================================================================ *)
+(* The reassembly buffer as the code manages it (src/buffer_builder.rs, Model/BufferBuilder.v): capacity, limit, memory,
+   i32 arithmetic of a debug and of a release build.  bb_ok b: HDR <= limit <= capacity, 2 <= capacity <= MAX (what `new`
+   establishes and every operation keeps).  prescribed c r c': c' is the first capacity of the sequence
+   c, c + c/2, (c + c/2) + (c + c/2)/2, ... (each at most MAX = i32::MAX - 8) that is >= r.
+   BB_SAFE = 1431655765 is the largest capacity whose growth step fits an i32. *)
+
+(* new: limit HDR, nothing appended, capacity between the minimum and 2^30; for initial lengths 1 .. 2^30 the capacity holds
+   the initial length and is less than twice as large (or the minimum) *)
+Theorem C20_builder_new : forall m n b, bb_new m n = Ok b ->
+  bb_ok b /\ bb_limit b = HDR /\ bb_content b = [] /\ BB_MIN_CAPACITY <= bb_cap b <= 1073741824 /\
+  (1 <= n <= 1073741824 -> n <= bb_cap b /\ (BB_MIN_CAPACITY < bb_cap b -> bb_cap b < 2 * n)).
+Proof. exact new_spec. Qed.
+Print Assumptions C20_builder_new.
+
+(* append, whenever it returns: the limit grows by exactly the length, the bytes [HDR, limit) are the old ones followed by the
+   new ones (no byte lost, none reordered, also across a reallocation), the capacity stays when it suffices and is the
+   prescribed one otherwise *)
+Theorem C20_builder_append : forall m b bytes b', bb_ok b -> bb_append m b bytes = Ok b' ->
+  bb_ok b' /\ bb_limit b' = bb_limit b + Z.of_nat (length bytes) /\
+  bb_content b' = bb_content b ++ bytes /\
+  (bb_limit b + Z.of_nat (length bytes) <= bb_cap b -> bb_cap b' = bb_cap b) /\
+  (bb_cap b < bb_limit b + Z.of_nat (length bytes) ->
+     prescribed (bb_cap b) (bb_limit b + Z.of_nat (length bytes)) (bb_cap b')).
+Proof. exact append_spec. Qed.
+Print Assumptions C20_builder_append.
+
+(* ... it does return, in a debug and in a release build, while the new limit is at most BB_SAFE + 1 ... *)
+Theorem C20_builder_append_succeeds : forall m b bytes, bb_ok b -> bb_limit b + Z.of_nat (length bytes) <= BB_SAFE + 1 ->
+  exists b', bb_append m b bytes = Ok b'.
+Proof. exact append_succeeds. Qed.
+Print Assumptions C20_builder_append_succeeds.
+
+(* ... a release build up to MAX ... *)
+Theorem C20_builder_append_succeeds_release : forall b bytes, bb_ok b -> bb_limit b + Z.of_nat (length bytes) <= BB_MAX_CAPACITY ->
+  exists b', bb_append Release b bytes = Ok b'.
+Proof. exact append_succeeds_release. Qed.
+Print Assumptions C20_builder_append_succeeds_release.
+
+(* ... and it never loops for ever, whatever is appended *)
+Theorem C20_builder_never_hangs : forall m b bytes, bb_ok b -> bb_append m b bytes <> Hang.
+Proof. exact append_never_hangs. Qed.
+Print Assumptions C20_builder_never_hangs.
+
+(* a whole message: any sequence of fragment payloads appended after a reset is there in order, all of it *)
+Theorem C20_builder_message : forall m chunks b b', bb_ok b -> bb_appends m (bb_reset b) chunks = Ok b' ->
+  bb_content b' = concat chunks /\ bb_limit b' = HDR + Z.of_nat (length (concat chunks)) /\ bb_cap b <= bb_cap b' /\ bb_ok b'.
+Proof. intros m chunks b b' Hok H. destruct (reset_spec b Hok) as (R1 & R2 & R3 & R4).
+  destruct (appends_spec m chunks _ _ R1 H) as (A1 & A2 & A3 & A4). rewrite R3 in A2. rewrite R2 in A3. rewrite R4 in A4.
+  cbn [app] in A2. split; [exact A2|]. split; [exact A3|]. split; [exact A4|exact A1]. Qed.
+Print Assumptions C20_builder_message.
+
+Theorem C20_builder_message_succeeds : forall m chunks b, bb_ok b -> HDR + Z.of_nat (length (concat chunks)) <= BB_SAFE + 1 ->
+  exists b', bb_appends m (bb_reset b) chunks = Ok b'.
+Proof. intros m chunks b Hok H. destruct (reset_spec b Hok) as (R1 & R2 & _). apply appends_succeed; [assumption|]. rewrite R2. exact H. Qed.
+Print Assumptions C20_builder_message_succeeds.
+
+(* the growth loop: sound for every capacity a builder can have, total up to BB_SAFE + 1 in both builds, ends for every
+   capacity >= 2; a capacity of 0 or 1 makes it loop for ever (the defect repaired by C20-buffer-builder-min-capacity) *)
+Theorem C20_growth_sound : forall m fuel c r c', 0 <= c <= BB_MAX_CAPACITY -> fsc m fuel c r = Ok c' -> prescribed c r c'.
+Proof. exact fsc_sound. Qed.
+Print Assumptions C20_growth_sound.
+
+Theorem C20_growth_complete : forall m c r, 2 <= c -> c < r -> r <= BB_SAFE + 1 ->
+  exists c', find_suitable_capacity m c r = Ok c' /\ prescribed c r c'.
+Proof. exact fsc_complete. Qed.
+Print Assumptions C20_growth_complete.
+
+Theorem C20_growth_terminates : forall m c r, 2 <= c <= BB_MAX_CAPACITY -> find_suitable_capacity m c r <> Hang.
+Proof. exact fsc_terminates. Qed.
+Print Assumptions C20_growth_terminates.
+
+Theorem C20_growth_loops_below_2 : forall m c r, 0 <= c <= 1 -> c < r -> forall fuel, fsc m fuel c r = Hang.
+Proof. exact fsc_loops_below_2. Qed.
+Print Assumptions C20_growth_loops_below_2.
+
+(* beyond BB_SAFE the builds differ: a release build clamps to MAX and reports MaxCapacityReached above it, a debug build
+   panics on the overflowing sum; whatever a debug build returns a release build returns too *)
+Theorem C20_growth_release_complete : forall c r, 2 <= c -> c < r -> r <= BB_MAX_CAPACITY ->
+  exists c', find_suitable_capacity Release c r = Ok c' /\ prescribed c r c'.
+Proof. exact fsc_release_complete. Qed.
+Print Assumptions C20_growth_release_complete.
+
+Theorem C20_growth_release_beyond_max : forall c r, 2 <= c <= BB_MAX_CAPACITY -> BB_MAX_CAPACITY < r ->
+  find_suitable_capacity Release c r = Err IllegalState.
+Proof. exact fsc_release_beyond_max. Qed.
+Print Assumptions C20_growth_release_beyond_max.
+
+Theorem C20_growth_debug : forall fuel c r,
+  (fsc Debug fuel c r = Panic \/ fsc Debug fuel c r = fsc Release fuel c r) /\
+  (BB_SAFE < c <= BB_MAX_CAPACITY -> fsc Debug (S fuel) c r = Panic).
+Proof. intros. split; [apply fsc_debug_refines|apply fsc_debug_panics_above_safe]. Qed.
+Print Assumptions C20_growth_debug.
+
+(* ---- the assembler over real builders refines the assembler over ideal byte lists (Model/Assembler.v), so C20_sessions,
+   C20_reassembly, C20_midjoin and the reassembly clause of C01 hold for the code's buffer management: whenever
+   on_fragment / a fragment sequence returns, the delegate got the same messages and the builders hold the same bytes ... *)
+Theorem C20_assembler_refines : forall m ibl xs bs bs' out, builders_ok bs ->
+  assemble_bb m ibl bs xs = Ok (bs', out) ->
+  builders_ok bs' /\ assemble (ideal_of bs) xs = (ideal_of bs', out).
+Proof. exact assemble_bb_refines. Qed.
+Print Assumptions C20_assembler_refines.
+
+(* ... and it does return (no hang, no panic) from a fresh assembler for every fragment sequence of any sessions with less than
+   BB_SAFE payload bytes in total, for every initial buffer length whose round-up fits an i64 (new_ok_small) *)
+Theorem C20_assembler_exact : forall m ibl xs, - two63 < ibl <= 4611686018427387904 -> HDR + frag_bytes xs <= BB_SAFE + 1 ->
+  exists bs', assemble_bb m ibl [] xs = Ok (bs', snd (assemble [] xs)) /\ ideal_of bs' = fst (assemble [] xs).
+Proof. intros m ibl xs Hi Hb. apply assemble_bb_exact; [apply new_ok_small; exact Hi|exact Hb]. Qed.
+Print Assumptions C20_assembler_exact.
+
+(* sessions never mix, with the real builders *)
+Theorem C20_sessions_real : forall m ibl s xs bs', - two63 < ibl <= 4611686018427387904 -> HDR + frag_bytes xs <= BB_SAFE + 1 ->
+  forall out, assemble_bb m ibl [] xs = Ok (bs', out) ->
+  of_session s out = map (pair s) (snd (run1 None (proj s xs))).
+Proof. intros m ibl s xs bs' Hi Hb out H. destruct (C20_assembler_exact m ibl xs Hi Hb) as (bs2 & E & _).
+  rewrite E in H. inversion H; subst. apply (proj1 (assemble_session s xs [])). Qed.
+Print Assumptions C20_sessions_real.
+
+(* the run the implementation is compared with uses the real builders; whenever it returns it is the run over ideal byte lists,
+   hence accepted by the oracle *)
+Theorem C20_run_real_refines : forall m ibl slots initial ops obs,
+  run_sub_case_bb m ibl slots initial ops = Ok obs -> run_sub_case m slots initial ops = obs.
+Proof. exact run_sub_case_bb_refines. Qed.
+Print Assumptions C20_run_real_refines.
+
+Theorem C20_oracle_history_real : forall m ibl slots initial ops obs, case_ok slots ops ->
+  run_sub_case_bb m ibl slots initial ops = Ok obs -> holds_sub_case slots initial ops obs = true.
+Proof. exact sub_case_bb_judged. Qed.
+Print Assumptions C20_oracle_history_real.
+
+(* the BufferBuilder oracle (limit, bytes, prescribed capacity after every operation) accepts every run of the model, and
+   holds_find accepts find_suitable_capacity, in both builds *)
+Theorem C20_oracle_builder : forall m initial ops, holds_bb_case initial ops (run_bb_case m initial ops) = true.
+Proof. exact bb_case_judged. Qed.
+Print Assumptions C20_oracle_builder.
+
+Theorem C20_oracle_find : forall m cap req, holds_find cap req (find_suitable_capacity m cap req) = true.
+Proof. exact find_judged. Qed.
+Print Assumptions C20_oracle_find.
+
+(* ================================================================================================================ *)
+(* A poll against a concurrent add / remove of an image (Model/SubThreads.v).  What synchronises the application thread
+   and the conductor thread is the std Mutex around the Subscription (Arc<Mutex<Subscription>>; poll_inner, add_image,
+   remove_image take &mut self); AtomicVec's begin_change / end_change never see a concurrent reader.  The thread model
+   takes one step per shared-memory action: lock, the two loads of `load`, the round_robin_index lines, ONE STEP PER IMAGE
+   of the two loops, the three stores of `store`, unlock; any interleaving of any number of threads (schedule = list of thread
+   ids, entries of blocked threads skipped).  `history` = the completed requests in lock-acquisition order. *)
+
+(* mutual exclusion; under it the seqlock comparison of `load` always succeeds at once *)
+Theorem C20_mutex_invariant : forall (I X : Type) (pk : I -> Z -> Z * I * list X) (c0 c : config I X),
+  initial c0 -> reach pk true c0 c ->
+  (forall t, in_cs (th_pc (c_thr c t)) = true <-> m_holder (c_sh c) = Some t) /\
+  (forall t1 t2, in_cs (th_pc (c_thr c t1)) = true -> in_cs (th_pc (c_thr c t2)) = true -> t1 = t2) /\
+  ((forall t, in_store (th_pc (c_thr c t)) = false) -> m_begin (c_sh c) = m_end (c_sh c)).
+Proof. exact @mutex_invariant. Qed.
+Print Assumptions C20_mutex_invariant.
+
+(* every schedule is equivalent to running the requests one after another in lock-acquisition order with
+   poll_inner / add_image / remove_image of Model/Subscription.v: every request is atomic *)
+Theorem C20_linearizable : forall (I X : Type) (pk : I -> Z -> Z * I * list X) (c0 : config I X) n fuel sched,
+  initial c0 -> (forall t, (n <= t)%nat -> th_todo (c_thr c0 t) = []) ->
+  let c := run pk true n fuel sched c0 in
+  all_done n c = true ->
+  seq_run pk (map h_req (history (c_log c))) (mkSub (m_buf (c_sh c0)) (m_rr (c_sh c0)))
+    = (mkSub (m_buf (c_sh c)) (m_rr (c_sh c)), map h_res (history (c_log c))) /\
+  (forall t, reqs_of t (history (c_log c)) = th_todo (c_thr c0 t)).
+Proof. exact @linearizable. Qed.
+Print Assumptions C20_linearizable.
+
+(* (the hypothesis all_done is met by every schedule once the drain has enough fuel) *)
+Theorem C20_schedules_complete : forall (I X : Type) (pk : I -> Z -> Z * I * list X) (c0 : config I X),
+  initial c0 -> forall n sched, (forall t, (n <= t)%nat -> th_todo (c_thr c0 t) = []) ->
+  exists f0, forall fuel, (f0 <= fuel)%nat -> all_done n (run pk true n fuel sched c0) = true.
+Proof. exact @drain_completes. Qed.
+Print Assumptions C20_schedules_complete.
+
+(* a poll racing with one add / remove sees either the old or the new image list, never a mixture ... *)
+Theorem C20_poll_sees_old_or_new : forall (I X : Type) (pk : I -> Z -> Z * I * list X) l rr lim fuel sched (q : req I) (l' : list I),
+  0 <= rr ->
+  (exists im, q = RAdd im /\ l' = l ++ [im]) \/ (exists p, q = RRemove p /\ l' = remove_first p l) ->
+  let c := run pk true 2 fuel sched (init_cfg l rr [[RPoll lim]; [q]]) in
+  all_done 2 c = true ->
+  exists rp, In (0%nat, RPoll lim, rp) (history (c_log c)) /\
+    (rp = poll_res (poll_inner pk (mkSub l rr) lim) \/ rp = poll_res (poll_inner pk (mkSub l' rr) lim)).
+Proof. exact @poll_sees_old_or_new. Qed.
+Print Assumptions C20_poll_sees_old_or_new.
+
+(* ... and in every completed poll of every schedule, whatever the other threads add or remove meanwhile, every image of the
+   list the poll saw is polled at most once and the total stays within the limit; no request panics *)
+Theorem C20_poll_round_once : forall (I X : Type) (pk : I -> Z -> Z * I * list X) (c0 c : config I X) t lim total xs polled,
+  (forall im l, 0 < l -> 0 <= fst (fst (pk im l)) <= l) ->
+  initial c0 -> reach pk true c0 c ->
+  In (t, RPoll lim, RsPoll total xs polled) (history (c_log c)) ->
+  exists pre post s,
+    history (c_log c) = pre ++ (t, RPoll lim, RsPoll total xs polled) :: post /\
+    seq_run pk (map h_req pre) (seq0 c0) = (s, map h_res pre) /\
+    RsPoll total xs polled = poll_res (poll_inner pk s lim) /\
+    NoDup polled /\ Forall (fun j => 0 <= j < Z.of_nat (length (s_images s))) polled /\
+    0 <= total <= Z.max 0 lim.
+Proof. exact @poll_round_nodup. Qed.
+Print Assumptions C20_poll_round_once.
+
+Theorem C20_no_panic_under_mutex : forall (I X : Type) (pk : I -> Z -> Z * I * list X) (c0 c : config I X),
+  initial c0 -> reach pk true c0 c -> forall e, In e (history (c_log c)) -> h_res e <> RsPanic.
+Proof. exact @no_panic. Qed.
+Print Assumptions C20_no_panic_under_mutex.
+
+(* without the mutex the sequence numbers alone would not do: `load` hands out a reference to the live vector, so a poll
+   interleaved with a remove panics in get_mut(i).expect(..) (first schedule) or polls a mixture of the old and the new list
+   (second schedule: images 100 and 300 - neither [100; 200] of the old list nor [200; 300] of the new one) *)
+Theorem C20_seqlock_alone_not_enough :
+  (let c := run wpk false 2 30 s_panic (wcfg 10) in
+   all_done 2 c = true /\ results 0 c = [RsPanic] /\
+   results 1 c = [RsRemove (Some ([100; 200; 300], 0))] /\ final c = ([201; 301], 0, 0, 1)) /\
+  (let c := run wpk false 2 30 s_mix (wcfg 2) in
+   all_done 2 c = true /\ results 0 c = [RsPoll 2 [100; 300] [0; 1]] /\
+   results 1 c = [RsRemove (Some ([101; 200; 300], 0))] /\ final c = ([200; 301], 0, 0, 1) /\
+   poll_res (poll_inner wpk (mkSub [100; 200; 300] 0) 2) = RsPoll 2 [100; 200] [0; 1] /\
+   poll_res (poll_inner wpk (mkSub [200; 300] 0) 2) = RsPoll 2 [200; 300] [0; 1]).
+Proof. exact seqlock_alone_not_enough. Qed.
+Print Assumptions C20_seqlock_alone_not_enough.
+
 (* ---- non-vacuity ---- *)
 Example C20_case_ok_example :
   case_ok [(16, 5, 77, 0, (0, 0, 4, false, [(1, 192, 40, 1, 0); (1, 192, 41, 2, 0); (1, 192, 42, 3, 0); (1, 192, 43, 4, 0)]));
@@ -128,6 +380,33 @@ Proof. unfold case_ok. split; [|split].
   - repeat constructor; cbn; lia.
   - repeat constructor; cbn; intuition lia.
   - repeat constructor. Qed.
+
+(* fairness across a term end: image 1 (session 88) has caught up and stands exactly on the padding frame that closes its
+   term 2 while images 0 and 2 always have data; limit 1.  Call 2 starts with image 1: it consumes the padding (no fragment,
+   position 196608 = start of term 3) and the rest of the budget goes to image 2; the publisher continues in term 3 (roll);
+   when image 1 starts again (call 7) it is served the first fragment of term 3. *)
+Definition pad_slots : list sslot :=
+  [(16, 5, 77, 0, (0, 0, 5, false, [(1, 128, 96, 1, 0); (1, 0, 96, 2, 0); (1, 64, 40, 3, 0); (1, 192, 50, 4, 0); (1, 192, 60, 5, 0)]));
+   (16, 2147483647, 88, 2 * 65536 + 4096 + 64, (2, 4096, 2, false, [(1, 192, 50, 20, 0); (0, 0, 65536 - 4096 - 64, 0, 0)]));
+   (16, -3, 99, 131072, (2, 0, 4, false, [(1, 192, 40, 12, 0); (1, 192, 41, 13, 0); (1, 192, 42, 14, 0); (1, 192, 43, 15, 0)]))].
+Definition pad_ops : list sop :=
+  [SPoll 1; SPoll 1; SPoll 1; SPoll 1; SRoll 1 3 false [(1, 128, 96, 21, 0); (1, 64, 40, 22, 0); (1, 192, 44, 23, 0)];
+   SPoll 1; SPoll 1; SPoll 1].
+Example C20_padding_example :
+  case_ok pad_slots pad_ops /\
+  map (fun ob : sobs => let '(ret, raws, _, ps) := ob in (ret, map fo_session raws, ps)) (run_sub_case Debug pad_slots [0; 1; 2] pad_ops)
+  = [(Ok 1, [77], [96; 135232; 131072]);
+     (Ok 1, [99], [96; 196608; 131136]);
+     (Ok 1, [99], [96; 196608; 131200]);
+     (Ok 1, [77], [192; 196608; 131200]);
+     (Ok 0, [], [192; 196608; 131200]);
+     (Ok 1, [77], [256; 196608; 131200]);
+     (Ok 1, [88], [256; 196704; 131200]);
+     (Ok 1, [99], [256; 196704; 131264])].
+Proof. split; [|vm_compute; reflexivity]. unfold case_ok. split; [|split].
+  - repeat constructor; cbn; lia.
+  - repeat constructor; cbn; intuition lia.
+  - repeat constructor; cbn; lia. Qed.
 
 Example C20_fair_example : fst (rr_run 3 0 8) = [0; 1; 2; 0; 0; 1; 2; 0] /\ fst (rr_run 3 2 4) = [2; 0; 0; 1].
 Proof. split; reflexivity. Qed.
@@ -154,3 +433,23 @@ Example C20_run_example :
      (Ok 2, [(160, 10, 192, Ok 192, 77, 268963); (224, 11, 192, Ok 256, 77, 580905)], [(77, 10, 268963); (77, 11, 580905)], [256; 192; 131200]);
      (Ok 1, [(224, 1, 192, Ok 256, 88, 278)], [(88, 1, 278)], [256; 256; 131200])].
 Proof. vm_compute. reflexivity. Qed.
+
+(* the reassembly buffer: a message of twelve 40-byte fragments from the smallest buffer; the capacity walks the prescribed
+   sequence 64, 96, 144, 216, 324, 486, 729 and every byte is there *)
+Example C20_builder_example :
+  map (fun ob : bobs => let '(r, l, c, _) := ob in (r, l, c))
+      (run_bb_case Debug 1 (map (fun k => BAppend k 40) [1; 2; 3; 4; 5; 6; 7; 8; 9; 10; 11; 12]))
+  = [(Ok 0, 32, 64); (Ok 0, 72, 96); (Ok 0, 112, 144); (Ok 0, 152, 216); (Ok 0, 192, 216); (Ok 0, 232, 324); (Ok 0, 272, 324);
+     (Ok 0, 312, 324); (Ok 0, 352, 486); (Ok 0, 392, 486); (Ok 0, 432, 486); (Ok 0, 472, 486); (Ok 0, 512, 729)]
+  /\ (exists b, bb_new Debug 1 = Ok b /\ bb_ok b /\
+       exists b', bb_appends Debug (bb_reset b) (map (fun k => payload k 40) [1; 2; 3]) = Ok b' /\
+                  bb_content b' = payload 1 40 ++ payload 2 40 ++ payload 3 40)
+  /\ find_suitable_capacity Debug 64 100 = Ok 144 /\ prescribed 64 100 144
+  /\ find_suitable_capacity Release 1500000000 2000000000 = Ok 2147483639 /\ find_suitable_capacity Debug 1500000000 2000000000 = Panic
+  /\ find_suitable_capacity Release 2147483639 2147483647 = Err IllegalState.
+Proof. split; [vm_compute; reflexivity|]. split.
+  - eexists. split; [vm_compute; reflexivity|]. split; [vm_compute; intuition discriminate|].
+    eexists. split; [vm_compute; reflexivity|vm_compute; reflexivity].
+  - split; [vm_compute; reflexivity|]. split.
+    + exists 2%nat. split; [lia|]. split; [vm_compute; reflexivity|]. split; [lia|]. intros j Hj. assert (j = 1%nat) by lia. subst. vm_compute. reflexivity.
+    + repeat split; vm_compute; reflexivity. Qed.
